@@ -874,3 +874,53 @@ Proof.
   intros ty exact d dflt u Hin Hna Hno. rewrite (card_repaired_no_source ty exact d Hin).
   apply (every_requirement_must_hold u dflt _ d ReadPriv); [left; reflexivity|assumption|assumption].
 Qed.
+
+(* ------------------------------------------------------------------------------------------------------------ *)
+(* from the translated tables to the behaviour of the model: a route of the table with the authenticated signature is
+   wrapped by authenticate, and if its handler facts say "administrator" (resp. "read or write on the repository") the
+   kind that Corr.kind_supported accepts for it refuses everybody else *)
+Lemma siguser_authenticated : forall r, r_sig r = SigUser -> authenticated shape_now r = true.
+Proof.
+  intros r H. unfold authenticated. rewrite H. pose proof shape_check as S. unfold shape_ok in S.
+  repeat (apply andb_true_iff in S; destruct S as [S _]).
+  destruct (wrap_for (s_rules shape_now) SigUser None) as [w|]; [|discriminate]. exact S.
+Qed.
+
+Lemma siguser_not_rejecting : forall r, r_sig r = SigUser -> always_rejects r = false.
+Proof. intros r H. unfold always_rejects. rewrite H. reflexivity. Qed.
+
+Lemma admin_routes_refuse_lemma : forall r cfg us rq u,
+  In r routes -> r_sig r = SigUser ->
+  auth_enabled cfg = true -> admin_exists us = true -> valid_creds cfg us (rq_creds rq) u -> u_admin u = false ->
+  serve shape_now cfg us r KAdminOnly rq = (403, []).
+Proof.
+  intros r cfg us rq u _ Hs Ha Hadm Hv Hna.
+  apply (insufficient_privilege_rejected_lemma shape_now cfg us r KAdminOnly rq u Ha Hadm
+           (siguser_authenticated r Hs) (siguser_not_rejecting r Hs) Hv).
+  cbn [sufficient]. congruence.
+Qed.
+
+Lemma see_routes_refuse_lemma : forall r cfg us rq u,
+  In r routes -> r_sig r = SigUser ->
+  auth_enabled cfg = true -> admin_exists us = true -> valid_creds cfg us (rq_creds rq) u ->
+  ~ has_priv u ReadPriv (rq_db rq) -> ~ has_priv u WritePriv (rq_db rq) ->
+  serve shape_now cfg us r KRepoSee rq = (403, []).
+Proof.
+  intros r cfg us rq u _ Hs Ha Hadm Hv Hnr Hnw.
+  apply (insufficient_privilege_rejected_lemma shape_now cfg us r KRepoSee rq u Ha Hadm
+           (siguser_authenticated r Hs) (siguser_not_rejecting r Hs) Hv).
+  cbn [sufficient]. unfold can_see_spec. tauto.
+Qed.
+
+Lemma anonymous_refused_everywhere_lemma : forall r k cfg us rq,
+  In r routes -> public r = false ->
+  auth_enabled cfg = true -> admin_exists us = true -> (forall u, ~ valid_creds cfg us (rq_creds rq) u) ->
+  snd (serve shape_now cfg us r k rq) = [] /\ (fst (serve shape_now cfg us r k rq) = 401 \/ fst (serve shape_now cfg us r k rq) = 403).
+Proof.
+  intros r k cfg us rq Hin Hp Ha Hadm Hno.
+  destruct (all_nonpublic_authenticated_lemma r Hin Hp) as [Hau|Hrej].
+  - destruct (always_rejects r) eqn:E.
+    + unfold serve. rewrite E. split; [reflexivity|right; reflexivity].
+    + rewrite (invalid_creds_rejected_lemma shape_now cfg us r k rq Ha Hadm Hau E Hno). split; [reflexivity|left; reflexivity].
+  - unfold serve. rewrite Hrej. split; [reflexivity|right; reflexivity].
+Qed.
